@@ -54,6 +54,7 @@ EnvActs ==
     \cup (IF "send" \in Alpha THEN {[op |-> "send", s |-> s] : s \in Sid} ELSE {})
     \cup (IF "api" \in Alpha THEN {[op |-> "disconnect", s |-> s] : s \in Sid} ELSE {})
     \cup (IF "apiall" \in Alpha THEN {[op |-> "disconnectall"]} ELSE {})
+    \cup (IF "shutdown" \in Alpha THEN {[op |-> "shutdown"]} ELSE {})
     \cup (IF "sess" \in Alpha THEN {[op |-> "save", s |-> s, tok |-> s] : s \in Sid}
                                   \cup {[op |-> "get", s |-> s] : s \in Sid}
                                   \cup {[op |-> "transport", s |-> s] : s \in Sid}
@@ -73,6 +74,7 @@ Do(a) ==
       [] a.op = "send"    -> AppSend(a.s)
       [] a.op = "disconnect" -> AppDisconnect(a.s)
       [] a.op = "disconnectall" -> AppDisconnectAll
+      [] a.op = "shutdown" -> AppShutdown
       [] a.op = "transport" -> AppTransport(a.s)
       [] a.op = "sessctx" -> AppSessionCtx(a.s, a.tok)
       [] a.op = "apiunknown" -> AppUnknown(a.call)
